@@ -408,4 +408,7 @@ def build_table(spec, pal):
                              shape=(n, m))
     else:
         raise ValueError(build)
-    return Table(data, obs, samp, omd, smd, **kw)
+    t = Table(data, obs, samp, omd, smd, **kw)
+    for axis, key, dtype, text in spec.get("gmd", []):
+        t.add_group_metadata({key: (dtype, text)}, axis=axis)
+    return t
